@@ -192,12 +192,23 @@ func mkEntry(spec string) *PendingLogEntry {
 	}
 	switch {
 	case strings.HasPrefix(name, "P"):
+		// "P1~x": same TBS as "P1" but another issuer key hash.
+		tbs := name
+		if i := strings.IndexByte(name, '~'); i >= 0 {
+			tbs = name[:i]
+		}
 		e.IsPrecert = true
 		e.IssuerKeyHash = sha256.Sum256([]byte("ikh-" + name))
-		e.Certificate = []byte("tbs-" + name)
+		e.Certificate = []byte("tbs-" + tbs)
 		e.PreCertificate = []byte("pre-" + name)
 	case strings.HasPrefix(name, "X"):
 		e.Certificate = realCert()
+	case strings.HasPrefix(name, "hex:"):
+		b, err := hex.DecodeString(name[4:])
+		if err != nil {
+			panic(err)
+		}
+		e.Certificate = b
 	default:
 		e.Certificate = []byte(name)
 	}
